@@ -61,7 +61,10 @@ func (g *c20Getter) Get(url string) (map[string][]string, []byte, error) {
 		return nil, nil, fmt.Errorf("scripted failure #%d", idx+1)
 	}
 	// hand out fresh copies: the oracle compares against the private originals.
-	h := map[string][]string{}
+	var h map[string][]string
+	if g.hdr != nil {
+		h = map[string][]string{}
+	}
 	for k, v := range g.hdr {
 		h[k] = append([]string(nil), v...)
 	}
@@ -163,6 +166,9 @@ func c20Run(r *core.Run) {
 	}
 	hdr := map[string][]string{"X-Seq": {fmt.Sprintf("%x", r.T.Bytes(6))}, "Tcb-Info-Issuer-Chain": {string(r.T.Bytes(20)), "second"}}
 	body0 := r.T.Bytes(r.T.Range(0, 300))
+	if r.Index%7 == 3 {
+		hdr = nil // e.g. the Root CA CRL endpoint: a success without any header
+	}
 	emptyBody := r.Index%5 == 2 && r.Index%2 == 0 // never together with the long-lived getter (bodies tell calls apart there)
 	if emptyBody {
 		r.Probe("successful_response_with_empty_body")
